@@ -11,7 +11,8 @@ Inductive obs := OPanic | OUnchanged | OChanged.
 Inductive case :=
 | HC (c : cfg) (e : env) (ctx_ok : bool) (m : wmsg) (o : obs)   (* one delivered message *)
 | RB (h : hclass) (found : bool) (o : obs)                      (* RequestBlock reply *)
-| DC (g : guards) (d : dcall) (returned : bool).                (* direct call of a converter *)
+| DC (g : guards) (d : dcall) (returned : bool)                 (* direct call of a converter *)
+| EQ (g : guards) (vh_eq a b same : bool) (res : option bool).  (* direct call of QuorumCert.Equals; None = panicked *)
 
 Definition check_obs (r : result verdict) (o : obs) : bool :=
   match r, o with
@@ -31,6 +32,14 @@ Definition check_case (k : case) : bool :=
   | RB h found o =>
       Bool.eqb (srv_request_block h) found && match o with OUnchanged => true | _ => false end
   | DC g d returned => Bool.eqb (decode_returns g d) returned
+  | EQ g vh a b same res =>
+      (* only whether the call returns is compared (with the probed guard): what Equals answers for two
+         signed certificates is not C10's business and no handler depends on it *)
+      match qc_equals g vh a b same, res with
+      | Panic, None => true
+      | Ok _, Some _ => true
+      | _, _ => false
+      end
   end.
 
 Definition mismatches := mismatches_with check_case.
